@@ -88,6 +88,22 @@ def strata(tier):
             for x in leaves_[1:]:
                 t = {"c": op, "a": t, "b": x}
             yield {"mode": "tree", "via": "spec", "container": PROBE_LIST, "tree": t, "flatten": True}
+    # operands of one spec list that differ only in the type of a key / an element inside an argument
+    twins = [({1: "a"}, {"1": "a"}), ({None: 0}, {"null": 0}), ({True: 1}, {"true": 1}), ({1.5: 0}, {"1.5": 0}),
+             ([1, 2], [1.0, 2]), ([1, [2]], [1, ["2"]]), ({"a": {1: 0}}, {"a": {"1": 0}}), ({"a": None}, {"a": "None"})]
+    for j, (u, v) in enumerate(twins):
+        cont = [u, v, 1, "1", None, "null", True, "true", 1.5, "1.5", {2: "a"}, [1, 2], [1.0, 2]]
+        for fn in ("equal_to", "not_equal_to", "in_", "not_in"):
+            if fn in ("in_", "not_in") and type(u) is not dict:
+                continue
+            A = {"c": "leaf", "kind": "value", "pre": None, "fn": fn, "args": [u]}
+            B = {"c": "leaf", "kind": "value", "pre": None, "fn": fn, "args": [v]}
+            X = {"c": "leaf", "kind": "index", "pre": None, "fn": "less_than", "args": [6]}
+            for op in OPS:
+                for t in ({"c": op, "a": A, "b": B}, {"c": op, "a": B, "b": A}, {"c": op, "a": {"c": op, "a": NULL, "b": A}, "b": B},
+                          {"c": op, "a": {"c": op, "a": A, "b": X}, "b": B}, {"c": op, "a": {"c": op, "a": A, "b": B}, "b": A}):
+                    yield {"mode": "tree", "via": "spec", "container": cont, "tree": t, "flatten": True, "stratum": "twin-operands"}
+                    yield {"mode": "tree", "via": "op", "container": cont, "tree": t, "stratum": "twin-operands"}
     for j in range(40 if tier == "quick" else 200):
         yield gen_history(G.rng_for("C02-hist", j), 30 if tier == "quick" else 120)
 
